@@ -10,8 +10,9 @@ LEVEL_TEXT = ("Proof + correspondence (PARTIAL for the script-splitting stage): 
               "glyph-group, group-glyph, group-group precedence), the writer's group pruning / pair filtering / quantisation, "
               "the KerningPair ordering and the semantics of one compiled lookup (specific pairs first-definition-wins, then the "
               "class subtable); theorems: quantize yields a multiple of the step within half a step, first-definition-wins over "
-              "sorted rules, and -- under pairwise-disjoint groups -- a lookup built from the sorted rules returns exactly the UFO "
-              "precedence value. The property itself is an executable Coq predicate (spec_C05) evaluated with vm_compute on what "
+              "sorted rules, the sort puts rules in specificity order whatever the input order, a lookup in that order gives a pair "
+              "the value of the first covering rule, hence of the MOST SPECIFIC covering rule (0 when none covers) for every rule "
+              "list in which equally specific covering rules agree. The property itself is an executable Coq predicate (spec_C05) evaluated with vm_compute on what "
               "an independent GPOS interpreter reads from compiled fonts, for every ordered glyph pair under every script tag; "
               "getKerningData's pair list is compared with the Gallina kerning_pairs. The per-script split/merge/registration of "
               "kernFeatureWriter is not transcribed into Coq: its effect is only checked through spec_C05 on generated fonts. "
